@@ -253,7 +253,7 @@ func runRedialM(rec *Rec, app *App, g *Gates, fw *forwarder, sc *RedialMScenario
 			return
 		}
 	}
-	fw.waitConn(300 * time.Millisecond)
+	fw.waitConnOf(sess.LocalAddr().String(), 500*time.Millisecond)
 	pause := func() { time.Sleep(4 * time.Millisecond) }
 	var heldCall *Behav
 	syncCall := func(name string) bool {
